@@ -1011,7 +1011,7 @@ def build_image(tree, block_size=4096, comp=1, use_frags=True, exportable=True, 
                     break
                 run.append(ents[j])
                 j += 1
-            hdrs.append(out.tell())
+            hdrs.append((out.tell(), raw_names.get(run[0], run[0].rsplit(b"/", 1)[-1])))
             out.put("III", ["count", "start", "inode_number"], len(run) - 1, blk * (META + 2), refnum)
             for e in run:
                 q = primary[e]
@@ -1022,12 +1022,15 @@ def build_image(tree, block_size=4096, comp=1, use_frags=True, exportable=True, 
             i = j
         return out, hdrs
 
+    index_info = {}
+
     def inode_size(p, listing_len=0):
         n = tree[p]
         has_x = p in xidx
         if n.type == "dir":
-            ext = has_x or listing_len + 3 > 0xFFFF or with_index
-            return 16 + (24 if ext else 16), ext
+            idx = index_info.get(p, []) if with_index else []
+            ext = has_x or listing_len + 3 > 0xFFFF or bool(idx)
+            return 16 + (24 if ext else 16) + sum(12 + len(nm) for _, nm in idx), ext
         if n.type == "file":
             start, words, fi, fo, size, sparse = finfo[p]
             ext = has_x or nlink[p] > 1 or sparse > 0 or size >= (1 << 32) or start >= (1 << 32)
@@ -1049,10 +1052,17 @@ def build_image(tree, block_size=4096, comp=1, use_frags=True, exportable=True, 
             if tree[p].type == "dir" and with_index:
                 pass
             off += sz
-        new = {p: dir_listing(p, inode_off)[0].tell() for p in kids}
-        if new == listing_len:
+        new = {}
+        new_idx = {}
+        for p in kids:
+            ls, hd = dir_listing(p, inode_off)
+            new[p] = ls.tell()
+            new_idx[p] = hd if len(hd) > 1 else []
+        if new == listing_len and new_idx == index_info:
             break
         listing_len = new
+        index_info.clear()
+        index_info.update(new_idx)
     # ---- directory table
     dstream = _MetaStream()
     dir_pos = {}
@@ -1085,8 +1095,13 @@ def build_image(tree, block_size=4096, comp=1, use_frags=True, exportable=True, 
             dp = dir_pos[p]
             links = 2 + len(kids[p])
             if ext:
+                idx = index_info.get(p, []) if with_index else []
                 istream.put("IIIIHHI", [pre + "nlink", pre + "size", pre + "dir_block", pre + "parent", pre + "index_count", pre + "dir_offset", pre + "xattr"],
-                            links, size, (dp // META) * (META + 2), parent_num, 0, dp % META, xi)
+                            links, size, (dp // META) * (META + 2), parent_num, len(idx), dp % META, xi)
+                for k, (hoff, nm) in enumerate(idx):
+                    istream.put("III", [pre + "index%d.index" % k, pre + "index%d.start" % k, pre + "index%d.name_size" % k],
+                                hoff, ((dp + hoff) // META) * (META + 2), len(nm) - 1)
+                    istream.raw(nm, pre + "index%d.name" % k)
             else:
                 istream.put("IIHHI", [pre + "dir_block", pre + "nlink", pre + "size", pre + "dir_offset", pre + "parent"],
                             (dp // META) * (META + 2), links, size, dp % META, parent_num)
